@@ -67,6 +67,9 @@ def gen_cases(tier, rng):
         n = int(rng.integers(2, 9))
         L = int(rng.integers(1, 61))
         hist = []
+        # rates are in 1/fs: lifetimes from femtoseconds to milliseconds are all legitimate values; so are small refinements of a value
+        scale = [1.0, 1.0, 1e-3, 1e-6, 1e-9, 1e-12][i % 6]
+        last = {}
         for _ in range(L):
             u = rng.random()
             a, b = int(rng.integers(n)), int(rng.integers(n))
@@ -74,7 +77,12 @@ def gen_cases(tier, rng):
                 b = a                      # refused diagonal edit
             elif a == b:
                 b = (a + 1) % n
-            v = 0.0 if rng.random() < 0.15 else r3(rng.uniform(0.0, 2.0))
+            if (a, b) in last and last[(a, b)] != 0.0 and rng.random() < 0.25:
+                v = float(last[(a, b)] * (1.0 + float(rng.choice([1e-7, -1e-7, 3e-6, 1e-9]))))
+            else:
+                v = 0.0 if rng.random() < 0.15 else float("%.3g" % (rng.uniform(0.0, 2.0) * scale))
+            if a != b:
+                last[(a, b)] = v
             hist.append([a, b, v])
         cases.append({"cls": "set_rate-history", "n": n, "hist": hist, "seed": int(rng.integers(1 << 30)), "cost": 1})
     npg = 350 if tier == "quick" else 2800
